@@ -52,6 +52,10 @@ type C07Case struct {
 	// not return anything but the node's data (a response that failed
 	// validation must not be served from the segment cache).
 	Retry bool `json:"retry,omitempty"`
+	// Warm: the client has already served a clean request (an adjacent range,
+	// same plan) before the corrupted one: whatever it keeps between requests
+	// (buffers, caches, counters) is not in its initial state.
+	Warm bool `json:"warm,omitempty"`
 }
 
 // directRT, when set, serves HTTP synchronously (client-level harnesses).
@@ -194,6 +198,9 @@ func applyCorruption(n *node.Node, c C07Corr, start, limit uint64, reqs []node.R
 	case "error":
 		replies[e].Result = nil
 		replies[e].Error = &node.RPCError{Code: -32000, Message: "boom"}
+		return 200, encode(), true
+	case "no_result":
+		replies[e].Result = node.OmitResult
 		return 200, encode(), true
 	}
 	// content-level corruptions
@@ -926,6 +933,22 @@ func RunC07(t *testing.T, plan *Plan, st *core.Stream, extra Extra, keepLog bool
 		res.PlanDigest += " retry"
 	}
 	cl := jrpc2.New(url)
+	if cs.Warm {
+		ws := cs.Start + cs.Limit
+		if n.Canonical(ws+cs.Limit-1) == nil {
+			ws = 1
+		}
+		phase = -1
+		func() {
+			defer func() { recover() }()
+			if _, werr := cl.Get(context.Background(), url, f, ws, cs.Limit); werr != nil {
+				res.HarnessErr = fmt.Sprintf("C07 warm-up Get failed: %v", werr)
+			}
+		}()
+		phase = 0
+		ex = nil
+		res.PlanDigest += " warm"
+	}
 	var got []eth.Block
 	var err error
 	func() {
@@ -1055,7 +1078,7 @@ var c07NeedSets = [][]string{
 }
 var c07Kinds = []string{"status", "non_json", "wrong_shape", "truncate", "drop", "dup", "swap", "null", "error", "renumber", "break_parent", "break_hash",
 	"move_log_in", "move_log_out", "move_log_tx", "move_receipt_in", "move_first_receipt_in", "move_receipt_out", "move_trace_in", "move_first_trace_in", "move_trace_out",
-	"reorder_receipts", "reorder_logs", "reorder_txs", "log_hash", "log_tx_beyond", "trace_tx_beyond", "status_body"}
+	"reorder_receipts", "reorder_logs", "reorder_txs", "log_hash", "log_tx_beyond", "trace_tx_beyond", "status_body", "no_result"}
 
 var (
 	c07Once  sync.Once
@@ -1087,7 +1110,7 @@ func c07Init() {
 						for _, kind := range c07Kinds {
 							elems := 1
 							switch kind {
-							case "drop", "dup", "swap", "null", "error", "renumber", "break_parent", "break_hash", "move_receipt_in", "move_first_receipt_in", "move_receipt_out", "reorder_receipts", "reorder_txs":
+							case "drop", "dup", "swap", "null", "error", "no_result", "renumber", "break_parent", "break_hash", "move_receipt_in", "move_first_receipt_in", "move_receipt_out", "reorder_receipts", "reorder_txs":
 								elems = int(limit)
 								if elems < 2 {
 									elems = 2
@@ -1121,6 +1144,12 @@ func c07Init() {
 										r := c
 										r.Retry = true
 										c07Cases = append(c07Cases, &r)
+									}
+									switch kind {
+									case "null", "no_result", "error", "wrong_shape", "drop", "truncate":
+										wc := c
+										wc.Warm = true
+										c07Cases = append(c07Cases, &wc)
 									}
 								}
 							}
